@@ -8,7 +8,7 @@
 (* below) + one schedule.  TLC explores every schedule (BFS) or samples       *)
 (* schedules of bigger programs (-simulate); at the end of main the values    *)
 (* printed must be the ones the program's builder declared (Deterministic),   *)
-(* no schedule may wedge (deadlock check) or send on a closed channel.        *)
+(* no schedule may wedge (NoWedge) or send on a closed channel.               *)
 (* The finished behaviour is emitted as a case (ConcProg_Gen): the program    *)
 (* as an AST that lib-side code only pretty-prints, and what it must print.   *)
 (*                                                                            *)
@@ -287,15 +287,22 @@ Step(i) ==
                /\ gs' = Adv(i, g) /\ UNCHANGED <<X, S, mu, wg, chs, fault>>
      /\ UNCHANGED prog
 
-Over == (Finished \/ fault # "") /\ UNCHANGED vars
-
-Next == (\E i \in DOMAIN gs : Step(i)) \/ Over
+Next == \E i \in DOMAIN gs : Step(i)      \* no step after main returned or after a fault
 Spec == Init /\ [][Next]_vars
 
 (* ------------------------------------------------------------------------ *)
 (* I3: whatever the schedule, main prints what the builder declared *)
 Deterministic == Finished => out = prog.exp
 NoFault == fault = ""
+(* no schedule wedges: until main returns somebody can move *)
+CanStep(i) == LET g == gs[i]
+                  o == g.code[g.pc]
+              IN CASE o.op = "lock" -> (Lock => mu = 0)
+                   [] o.op = "send" -> chs[ChanOf(g, o.ch)].closed \/ Len(chs[ChanOf(g, o.ch)].q) < chs[ChanOf(g, o.ch)].cap
+                   [] o.op \in {"recv", "rhead"} -> chs[ChanOf(g, o.ch)].q # <<>> \/ chs[ChanOf(g, o.ch)].closed
+                   [] o.op = "wgwait" -> wg = 0
+                   [] OTHER -> TRUE
+NoWedge == Finished \/ fault # "" \/ \E i \in DOMAIN gs : Running(i) /\ CanStep(i)
 (* prefix property: nothing wrong is ever printed on the way *)
 PrefixOK == Len(out) <= Len(prog.exp) /\ \A j \in DOMAIN out : out[j] = prog.exp[j]
 (* the mutex is what it says *)
